@@ -393,6 +393,11 @@ PROPS["C01"] = dict(
                ("encoding/src/decode/basic.rs", "decode_us", r"impl\s+BasicDecode\s+for\s+BigEndianBasicDecoder")]),
         K("C01.header_roundtrip", "ext", ["c03::c03_roundtrip_explicit_le", "c03::c03_roundtrip_explicit_be"],
           "element header write-then-read is the identity in the explicit codecs (shared with C03; implicit: C03.dec_header against the dictionary contract)"),
+        K("C01.value_roundtrip", "ext",
+          ["c01::c01_value_" + n for n in ["u16_le", "u16_be", "i32_be", "u64_le", "i64_be", "f32_be", "f64_le", "f64_be"]],
+          "value level: encode_primitive of a two-item binary value (real explicit LE/BE encoders) followed by the matching "
+          "decode_*_into gives the same items in order and consumes exactly the bytes written",
+          complete=False, bound="2 items (concrete length), contents symbolic; 8 type x endianness combinations", timeout=300),
         K("C01.multi_value_decoders", "ext", ["c01::c01_us_into_be_n3", "c01::c01_ul_into_le_n2"],
           "decode_us_into / decode_ul_into fill every slot from consecutive values in order",
           complete=False, bound="3 resp. 2 values (concrete lengths), bytes symbolic"),
